@@ -27,6 +27,15 @@ Streams
              class (local `pathlib` paths, remote URLs, falsy and odd URLs) and on entities of the project itself, under
              several `parent_dir`, vs the model's `nodeUrl`; oracles: the node carries the imported URL; `relative_url`
              keeps a textual link on the entity's URL.
+  assoc    : (round 5) USE association of A's entities through B's own modules - the real `Project.correlate` (with the
+             description loaded by the real `load_external_modules`) on generated chains of modules of B (USE of A's modules /
+             of earlier modules of B; whole, ONLY with renames, rename lists; private modules with PUBLIC lists; B built with
+             `externalize` and other option sets) vs the model's `correlateAll`: per module and table (`pub_*`, `all_*`) the
+             imported entries in dict order; oracle from Fortran's accessibility rules: every accessible name of A is
+             resolved to A's entity.
+  (round 5) import / multi / lookup load into real parsed projects of B (three, differing in their USE statements): what is
+             loaded must not depend on B's source.  Pairs: prelude modules of B, `[[...]]` from a module that uses nothing
+             to modules of A no USE statement names, a USE inside an interface body, eight option sets for B.
   (round 4) the pairs are built with `graph: true`: B calls A's procedures (subroutine, function, generic, type-bound;
              from module procedures and from a main program) and the nodes of the inline SVG graphs count as links.
 """
@@ -353,7 +362,53 @@ def report_export(rep, case, real_doc, A):
 
 # --------------------------------------------------------------------------- import stream
 
-def fake_project(ext: dict, directory: Path):
+B_POOL_SOURCES = [
+    # nothing of A is named in any USE statement
+    {"b0.f90": "module bp0\n  !! a module of B\n  implicit none\n  integer :: bp0_v\nend module bp0\n"},
+    # the first module of A is used: by a module, in a procedure, by a program
+    {"b1.f90": "module bp1\n  use amod1\n  implicit none\ncontains\n  subroutine bp1_s()\n    use Amod1, only: nothing_much\n"
+               "  end subroutine bp1_s\nend module bp1\n",
+     "b1p.f90": "program bp1_main\n  use AMOD1\n  implicit none\nend program bp1_main\n"},
+    # other places a USE statement can stand in: an interface body, a submodule, block data, an external procedure
+    {"b2.f90": "module bp2\n  implicit none\n  interface\n    subroutine bp2_ext(x)\n      use amod1\n      integer :: x\n"
+               "    end subroutine bp2_ext\n    module subroutine bp2_sep()\n    end subroutine bp2_sep\n  end interface\nend module bp2\n",
+     "b2s.f90": "submodule (bp2) bp2_sub\n  use zz_unrelated\ncontains\n  module subroutine bp2_sep()\n  end subroutine bp2_sep\n"
+                "end submodule bp2_sub\n",
+     "b2x.f90": "subroutine bp2_top()\n  use zz_unrelated\nend subroutine bp2_top\n\nblock data bp2_bd\n  integer :: q\n"
+                "  common /bp2c/ q\nend block data bp2_bd\n"},
+]
+_B_POOL: list = []
+
+
+def init_b_pool(d: Path):
+    """B as `load_external_modules` meets it inside `Project.correlate`: real `Project` objects, parsed and not yet
+    correlated, of three small projects that differ in what their USE statements name.  The import / multi /
+    lookup streams load descriptions into (shallow copies of) these instead of into a stub, so that code which
+    looks at B's own entities while loading runs as it does in FORD."""
+    ford_mod()
+    import ford.fortran_project as fp
+    _B_POOL.clear()
+    cwd = os.getcwd()
+    try:
+        for i, files in enumerate(B_POOL_SOURCES):
+            pf = e2e.write_project(d / f"P{i}", files, {"project": f"pool{i}"})
+            with common.quiet():
+                settings = make_settings(pf)
+                _B_POOL.append(fp.Project(settings))
+    finally:
+        os.chdir(cwd)
+
+
+def fake_project(ext: dict, directory: Path, which: int = 0):
+    if _B_POOL:
+        import copy
+        proj = copy.copy(_B_POOL[which % len(_B_POOL)])
+        proj.external = ext
+        proj.settings = copy.copy(proj.settings)
+        proj.settings.directory = directory
+        for ln in LISTS:
+            setattr(proj, ln, [])
+        return proj
     return types.SimpleNamespace(
         external=ext, settings=types.SimpleNamespace(directory=directory),
         extModules=[], extProcedures=[], extInterfaces=[], extTypes=[], extVariables=[])
@@ -380,8 +435,8 @@ def render_val(v):
     return "?" + type(v).__name__
 
 
-def impl_import(doc, remote: bool, base: str, fetch_exc=None):
-    """Real load_external_modules on a fake project; the fetch returns `doc` (or raises)."""
+def impl_import(doc, remote: bool, base: str, fetch_exc=None, which: int = 0):
+    """Real load_external_modules on a project B (`which` of the pool); the fetch returns `doc` (or raises)."""
     ford = ford_mod()
     import ford.external_project as xp
     from ford.external_project import ENTITIES
@@ -389,7 +444,7 @@ def impl_import(doc, remote: bool, base: str, fetch_exc=None):
     text = json.dumps(doc)
     # local: a path relative to the project directory, resolved by the implementation itself
     url = base if remote else base.lstrip("/")
-    proj = fake_project({"a": url}, Path("/"))
+    proj = fake_project({"a": url}, Path("/"), which)
     o_local, o_url = xp.modules_from_local, xp.urlopen
 
     def local(u):
@@ -553,9 +608,32 @@ def import_stream(rep, drv, rng, docs, n, stats):
     reqs = [["c16.import", "1" if r else "0", b] + enc_json(d, []) for d, t, r, b in cases]
     got = drv.batch(reqs)
     bad = 0
-    for (doc, tag, remote, base), g in zip(cases, got):
-        im = impl_import(doc, remote, base)
+    for k, ((doc, tag, remote, base), g) in enumerate(zip(cases, got)):
+        im = impl_import(doc, remote, base, which=k)
         mo = model_import_result(g)
+        # property oracles (from the statement, on the real code alone): what A offers does not depend on what B's
+        # own source says - "every public entity of A that B ... names in a [[...]] reference" is every entity A
+        # describes -, and every module an exported description lists becomes an external module of B
+        if _B_POOL and im[0] == "ok":
+            for w in range(1, len(_B_POOL)):
+                other = impl_import(doc, remote, base, which=k + w)
+                if other != im:
+                    lost = other[1] if other[0] != "ok" else "; ".join(
+                        f"{ln}: {len(other[1][ln])} entities instead of {len(im[1][ln])}" for ln in LISTS if other[1][ln] != im[1][ln])
+                    rep.failing_input({"stream": "import", "tag": tag, "remote": remote, "base": base, "description": doc,
+                                       "oracle": "what is loaded from A's description does not depend on B's own source "
+                                                 "(every entity A describes can be named in a [[...]] reference)",
+                                       "why": f"{lost}", "B_sources": B_POOL_SOURCES[(k + w) % len(_B_POOL)],
+                                       "B_sources_compared_with": B_POOL_SOURCES[k % len(_B_POOL)]}, None)
+                    break
+            if tag == "exported" and isinstance(doc, dict) and isinstance(doc.get("modules"), list):
+                want = sorted(str(m_.get("name")) for m_ in doc["modules"])
+                have = sorted(x[1][2:] for x in im[1]["extModules"] if x[3] == "-")
+                if want != have:
+                    rep.failing_input({"stream": "import", "tag": tag, "remote": remote, "base": base, "description": doc,
+                                       "oracle": "every module an exported description lists becomes an external module of B",
+                                       "why": f"modules listed {want}, external modules of B {have}",
+                                       "B_sources": B_POOL_SOURCES[k % len(_B_POOL)]}, None)
         key = f"import:{tag.split(':')[0]}:{('remote' + ('/' if base.endswith('/') else '')) if remote else 'local'}:{im[0]}"
         stats[key] = stats.get(key, 0) + 1
         if im != mo:
@@ -600,8 +678,8 @@ def _fetch_failures():
     return {n: make[n] for n in FETCH_ERRORS}
 
 
-def impl_loadall(projects):
-    """Real load_external_modules on a fake project listing several external projects, in order.
+def impl_loadall(projects, which: int = 0):
+    """Real load_external_modules on a project B (`which` of the pool) listing several external projects, in order.
     projects: [{"remote": bool, "base": written URL / absolute directory, "doc": json | None, "exc": name | None}]
     The fetch is replaced: a project's description is served at the place a correct fetch asks for
     (`<dir>/modules.json` resp. `<URL>/modules.json`), anything else is 404 / missing."""
@@ -617,7 +695,7 @@ def impl_loadall(projects):
             by_url[index_of(p["base"])] = p
         else:
             by_dir[os.path.normpath(p["base"])] = p
-    proj = fake_project(ext, Path("/"))
+    proj = fake_project(ext, Path("/"), which)
     o_local, o_url = xp.modules_from_local, xp.urlopen
 
     def serve(p):
@@ -694,8 +772,8 @@ def multi_stream(rep, drv, rng, docs, n, stats):
         reqs.append(r)
     got = drv.batch(reqs)
     bad = 0
-    for (projects, pattern), g in zip(cases, got):
-        im = impl_loadall(projects)
+    for k, ((projects, pattern), g) in enumerate(zip(cases, got)):
+        im = impl_loadall(projects, which=k)
         mo = model_import_result(g)
         shape = "single" if len(pattern) == 1 else (
             "failing-before-usable" if re.search(r"F.*G", pattern) else
@@ -711,7 +789,7 @@ def multi_stream(rep, drv, rng, docs, n, stats):
         # property oracle (from the statement, on the real code alone): when no listed project ends the run on its
         # own, listing them together neither ends the run nor changes what each of them contributes
         if len(projects) > 1:
-            singles = [impl_loadall([p]) for p in projects]
+            singles = [impl_loadall([p], which=k) for p in projects]
             if all(s_[0] == "ok" for s_ in singles):
                 want = ["ok", {ln: [x for s_ in singles for x in s_[1][ln]] for ln in LISTS}]
                 if im != want:
@@ -932,6 +1010,219 @@ def node_stream(rep, drv, rng, n, stats):
     return len(cases), bad
 
 
+# --------------------------------------------------------------------------- USE association through B's own modules (round 5)
+
+ASSOC_TABLES = ("pub_procs", "pub_absints", "pub_types", "pub_vars")
+ASSOC_ALL = ("all_procs", "all_absinterfaces", "all_types", "all_vars")
+
+
+def gen_chain(rng, doc):
+    """Modules of B that use modules of the external project described by `doc` - directly, or through other
+    modules of B that pass the names on (public by default / listed in a PUBLIC statement; whole, ONLY lists,
+    renames) - plus, per module, what Fortran's rules make accessible there: local name -> (module of A,
+    table, key) of the entity it denotes.  Valid Fortran throughout."""
+    mods = doc["modules"] if isinstance(doc, dict) else doc
+    offers = {}                 # module name (lower) -> {local name: origin}
+    ext_names = []
+    for md in mods:
+        o = {}
+        for tb in ASSOC_TABLES:
+            for key, v in (md.get(tb) or {}).items():
+                if v:
+                    o[key.lower()] = (md["name"], tb, key)
+        offers[md["name"].lower()] = o
+        ext_names.append(md["name"])
+    chain, sees = [], {}
+    n = rng.randint(2, 4)
+    shadow = rng.random() < 0.15 and ext_names       # a module of B named like one of A's: B's own wins the USE
+    for i in range(n):
+        name = f"bq{i + 1}"
+        if shadow and i == 0:
+            name = rng.choice(ext_names).upper() if rng.random() < 0.5 else rng.choice(ext_names).lower()
+        m = {"name": name, "default": rng.choice(["public", "public", "private"]), "uses": [], "public_list": [],
+             "own": {"type": f"t_bq{i + 1}", "var": f"v_bq{i + 1}", "sub": f"s_bq{i + 1}"}}
+        targets = [e for e in ext_names if e.lower() not in {c["name"].lower() for c in chain} | {name.lower()}]
+        prev = [c["name"] for c in chain]
+        acc = {}
+        picks = []
+        for _ in range(rng.randint(1, 2)):
+            r = rng.random()
+            if prev and r < 0.55:
+                picks.append(rng.choice(prev[-2:]))
+            elif targets:
+                picks.append(rng.choice(targets))
+        if rng.random() < 0.07:
+            picks.append("nosuchmod")
+        for t in dict.fromkeys(picks):
+            off = offers.get(t.lower(), {})
+            names = sorted(off)
+            form = rng.random()
+            if not names or form < 0.5:
+                m["uses"].append({"mod": t, "form": "all", "items": []})
+                acc.update(off)
+            elif form < 0.8:
+                items = []
+                for o_ in rng.sample(names, rng.randint(1, min(4, len(names)))):
+                    loc = f"r{i + 1}_{o_}" if rng.random() < 0.4 else o_
+                    items.append((loc, o_))
+                m["uses"].append({"mod": t, "form": "only", "items": items})
+                acc.update({loc.lower(): off[o_] for loc, o_ in items})
+            else:
+                items = [(f"r{i + 1}_{o_}", o_) for o_ in rng.sample(names, rng.randint(1, min(2, len(names))))]
+                m["uses"].append({"mod": t, "form": "renaming", "items": items})
+                ren = {o_: loc for loc, o_ in items}
+                acc.update({ren.get(k_, k_).lower(): v for k_, v in off.items()})
+        if m["default"] == "private":
+            cand = sorted(acc) + list(m["own"].values())
+            m["public_list"] = [c for c in cand if rng.random() < 0.6]
+        passes = {k_: v for k_, v in acc.items() if m["default"] == "public" or k_ in m["public_list"]}
+        offers[name.lower()] = passes      # (B's own public entities are of no interest to later modules here)
+        sees[name] = acc
+        chain.append(m)
+    return chain, sees
+
+
+def render_chain(chain) -> dict:
+    files = {}
+    for m in chain:
+        L = [f"module {m['name']}", f"  !! chain module {m['name']}"]
+        for u in m["uses"]:
+            if u["form"] == "all":
+                L.append(f"  use {u['mod']}")
+            else:
+                items = ", ".join(loc if loc == o_ else f"{loc} => {o_}" for loc, o_ in u["items"])
+                L.append(f"  use {u['mod']}, " + ("only: " if u["form"] == "only" else "") + items)
+        L.append("  implicit none")
+        if m["default"] == "private":
+            L.append("  private")
+            if m["public_list"]:
+                L.append("  public :: " + ", ".join(m["public_list"]))
+        o = m["own"]
+        L += [f"  type :: {o['type']}", "    integer :: filler", f"  end type {o['type']}", f"  integer :: {o['var']}",
+              "contains", f"  subroutine {o['sub']}()", f"  end subroutine {o['sub']}", f"end module {m['name']}"]
+        files[f"{m['name'].lower()}_q.f90"] = "\n".join(L) + "\n"
+    return files
+
+
+def assoc_stream(rep, drv, rng, d: Path, docs, n, stats):
+    """`FortranCodeUnit.correlate` on modules of B that get entities of A by USE association, directly or through
+    other modules of B, vs the model's `correlateAll`: per module of B and per table (`pub_*`: what it passes
+    on; `all_*`: what its declarations are resolved against) the imported entries - key, class, name, URL - in
+    the table's order.  The description is loaded by the real `load_external_modules` inside the real
+    `Project.correlate`; B is built with several option sets (`externalize` among them).
+    Property oracle (Fortran's rules of accessibility, computed by the generator): every entity of A that is
+    accessible in a module of B is known there as the entity A's description lists (name, URL below A's location)."""
+    ford = ford_mod()
+    import ford.external_project as xp
+    import ford.fortran_project as fp
+    from ford.external_project import ENTITIES
+    cls2key = {c.__name__: k for k, c in ENTITIES.items()}
+    usable = [doc for doc in docs if isinstance(doc, dict) and doc.get("modules")
+              and any(md.get(tb) for md in doc["modules"] for tb in ASSOC_TABLES)]
+    if not usable:
+        return 0, 0
+    base = "/abs/A/doc"
+    cases, reqs = [], []
+    for k in range(n):
+        doc = rng.choice(usable)
+        chain, sees = gen_chain(rng, doc)
+        files = render_chain(chain)
+        b_opts = dict(B_OPTION_SETS[k % len(B_OPTION_SETS)])
+        shutil.rmtree(d / "Q", ignore_errors=True)
+        pf = e2e.write_project(d / "Q", files, dict({"project": "projQ", "external": f"a = {base}"}, **b_opts))
+        case = {"stream": "assoc", "index": k, "files": files, "b_options": b_opts, "description": doc, "chain": chain}
+        o_local = xp.modules_from_local
+        xp.modules_from_local = lambda u, _t=json.dumps(doc): json.loads(_t)
+        cwd = os.getcwd()
+        try:
+            with common.quiet():
+                settings = make_settings(pf)
+                project = fp.Project(settings)
+                by_name = {m.name.lower(): m for m in project.modules}
+                before = {}
+                for cm in chain:
+                    mo = by_name[cm["name"].lower()]
+                    before[cm["name"]] = (
+                        mo.permission == "public", [str(x) for x in mo.public_list],
+                        [list(getattr(mo, tb)) for tb in ASSOC_TABLES],
+                        [list(mo.all_procs), [x.name.lower() for x in mo.absinterfaces], [x.name.lower() for x in mo.types],
+                         [x.name.lower() for x in mo.variables]])
+                project.correlate()
+            got = []
+            for cm in chain:
+                mo = by_name[cm["name"].lower()]
+                row = [mo.name]
+                for tb in ASSOC_TABLES + ASSOC_ALL:
+                    ent = [(key, o) for key, o in getattr(mo, tb).items() if hasattr(o, "external_url")]
+                    row.append(str(len(ent)))
+                    for key, o in ent:
+                        row += [key, cls2key.get(type(o).__name__, type(o).__name__), render_val(o.name), render_val(o.external_url)]
+                got += row
+            impl = ["ok"] + got
+        except Exception as e:
+            impl = ["err", type(e).__name__]
+            rep.failing_input(dict(case, oracle="B's modules are correlated", why=f"{type(e).__name__}: {e}"), None)
+            continue
+        finally:
+            xp.modules_from_local = o_local
+            os.chdir(cwd)
+        req = ["c16.assoc", "0", base] + enc_json(doc, []) + [str(len(chain))]
+        for cm in chain:
+            pub, plist, own_pub, own_all = before[cm["name"]]
+            req += [cm["name"], "1" if pub else "0", str(len(plist))] + plist
+            for tbl in own_pub + own_all:
+                req += [str(len(tbl))] + tbl
+            req.append(str(len(cm["uses"])))
+            for u in cm["uses"]:
+                req.append(u["mod"])
+                if u["form"] == "all":
+                    req.append("A")
+                else:
+                    req.append(("O" if u["form"] == "only" else "R") + str(len(u["items"])))
+                    for loc, o_ in u["items"]:
+                        req += [loc, o_]
+        cases.append((case, impl))
+        reqs.append(req)
+        depth = max((1 for cm in chain[1:] for u in cm["uses"] if u["mod"] in [c["name"] for c in chain]), default=0)
+        stats[f"assoc:{'through-B' if depth else 'direct-only'}:externalize={b_opts.get('externalize', 'false')}"] = \
+            stats.get(f"assoc:{'through-B' if depth else 'direct-only'}:externalize={b_opts.get('externalize', 'false')}", 0) + 1
+        for cm in chain:
+            for u in cm["uses"]:
+                stats["assoc:use:" + u["form"]] = stats.get("assoc:use:" + u["form"], 0) + 1
+            stats["assoc:module:" + cm["default"]] = stats.get("assoc:module:" + cm["default"], 0) + 1
+        # ---- property oracle
+        mods_by_name = {md["name"].lower(): md for md in doc["modules"]}
+        for cm in chain:
+            mo = by_name[cm["name"].lower()]
+            missing = []
+            for loc, (amod, tb, key) in sorted(sees[cm["name"]].items()):
+                desc = mods_by_name[amod.lower()][tb][key]
+                tbl = getattr(mo, ASSOC_ALL[ASSOC_TABLES.index(tb)])
+                o = tbl.get(loc)
+                want_url = str(PurePosixPath(base) / desc["external_url"].split("/", 1)[-1])
+                if o is None or not hasattr(o, "external_url") or str(o.name) != desc["name"] or str(o.external_url) != want_url:
+                    missing.append({"local_name": loc, "entity_of_A": desc["name"], "module_of_A": amod, "table": tb,
+                                    "found": None if o is None else [type(o).__name__, str(getattr(o, "name", None)),
+                                                                     str(getattr(o, "external_url", None))]})
+            stats["assoc:accessible-entities"] = stats.get("assoc:accessible-entities", 0) + len(sees[cm["name"]])
+            if missing:
+                rep.failing_input(dict(case, oracle="an entity of A that is accessible in a module of B by USE association - "
+                                       "directly or through other modules of B - is known there as A's entity",
+                                       module=cm["name"], why=f"{len(missing)} accessible name(s) of A not resolved to A's entity "
+                                       f"in module {cm['name']}", missing=missing[:6]), None)
+                break
+    got = drv.batch(reqs)
+    bad = 0
+    for (case, impl), r, g in zip(cases, reqs, got):
+        if g != impl:
+            bad += 1
+            i = next((j for j, (x, y) in enumerate(zip(g, impl)) if x != y), min(len(g), len(impl)))
+            rep.tie_broken(f"correspondence assoc: model correlateAll differs from FortranCodeUnit.correlate at field {i}: "
+                           f"model {g[max(0, i - 3):i + 5]} vs implementation {impl[max(0, i - 3):i + 5]}",
+                           dict(case, model=g, impl=impl))
+    return len(cases), bad
+
+
 # --------------------------------------------------------------------------- HTML observation
 
 class PageScan(HTMLParser):
@@ -1065,6 +1356,7 @@ def b_names(B) -> set:
             out.add(s_["name"].lower())
             out |= {a["name"].lower() for a in s_.get("args", [])}
         out |= {v["name"].lower() for v in m["vars"]}
+        out |= {i_["name"].lower() for i_ in m.get("ifaces", [])}
     if B.get("program"):
         out.add(B["program"]["name"].lower())
     return out
@@ -1167,9 +1459,11 @@ def check_links(B, A, bdoc: Path, adoc: Path, remote_base, homes, stats, graphs:
         href, text_, cls, f, frag = (bad or hits)[0]
         if side == "A":
             hs = homes[tracer][2]
+            private_pages = {p_ for t_ in texts for kind_, hs_, tr_ in by_name.get(t_, []) if not homes[tr_][3] for p_ in hs_}
             fails.append({"oracle": "reference to an entity of A is linked to A's page for it",
                           "page": str(page.relative_to(bdoc)), "href": href, "expect": ex,
                           "links_with_that_text": sorted({h[0] for h in hits}),
+                          "links_lead_to_private_entity_of_A": bool(hits) and all(h[3] in private_pages for h in hits),
                           "pages_documenting_it": sorted(str(h.relative_to(adoc)) for h in hs)})
         else:
             fails.append({"oracle": "a name B defines itself is linked to B's own entity",
@@ -1180,10 +1474,38 @@ def check_links(B, A, bdoc: Path, adoc: Path, remote_base, homes, stats, graphs:
 
 # --------------------------------------------------------------------------- classification
 
+def b_extends_type_of_a_with_bindings(case) -> bool:
+    """some derived type of B extends a type of A that has type-bound procedures (its own or inherited ones)"""
+    A, B = case.get("A"), case.get("B")
+    if not A or not B:
+        return False
+    own = {t["name"].lower() for m in B["modules"] for t in m["types"]}
+    for bm in B["modules"]:
+        for t in bm["types"]:
+            ext = (t.get("extends") or "").lower()
+            if not ext or ext in own:
+                continue
+            for am in A["modules"]:
+                ent = G.origin(A, am["name"]).get(ext)
+                at = next((x for m_ in A["modules"] for x in m_["types"] if x["name"].lower() == ent), None) if ent else None
+                seen = set()
+                while at is not None and id(at) not in seen:
+                    seen.add(id(at))
+                    if at["bound"]:
+                        return True
+                    up = (at.get("extends") or "").lower()
+                    at = next((x for m_ in A["modules"] for x in m_["types"] if up and x["name"].lower() == up), None)
+    return False
+
+
 def classify_abort(case) -> str | None:
     exc = case.get("exc") or ""
     mode = case.get("mode")
     bad = case.get("description")
+    if bad is None and exc.startswith("AttributeError: 'ExternalBoundProcedure' object has no attribute 'proctype'") \
+            and str((case.get("b_options") or {}).get("sort", "")).lower() in ("type", "type-alpha") \
+            and "sort_components" in (case.get("trace") or "") and b_extends_type_of_a_with_bindings(case):
+        return "C16-sort-by-type-inherited-external-binding-aborts"
     if bad in ("missing", "isdir") and mode != "remote" and exc.startswith(("FileNotFoundError", "IsADirectoryError", "NotADirectoryError")):
         return "C16-missing-description-aborts"
     if bad == "notutf8" and exc.startswith("UnicodeDecodeError"):
@@ -1230,6 +1552,14 @@ def classify_link(fail, A=None, a_opts=None) -> str | None:
         links = fail.get("links_with_that_text", [])
         if links and all((mm := pat.search(h)) and mm.group(1).lower() in binders for h in links):
             return "C16-unqualified-link-finds-binding-first"
+    if A is not None and fail.get("oracle") == "reference to an entity of A is linked to A's page for it" \
+            and ex.get("ford_link") and str(ex.get("why", "")).startswith(("link to procedure", "link to type")) \
+            and fail.get("links_lead_to_private_entity_of_A"):
+        # an unqualified [[name]] to a public procedure / type of A: every link with that text leads to the page of a
+        # *private* entity of A with the same identifier (A shows its private entities, so that page exists)
+        disp = (a_opts or {}).get("display", [])
+        if "private" in (disp if isinstance(disp, list) else [disp]):
+            return "C16-unqualified-link-finds-private-entity-first"
     if ex.get("cross_kind") and fail.get("oracle") == "a name B defines itself is linked to B's own entity" \
             and fail.get("went") == "outward":
         return "C16-unqualified-link-prefers-external"
@@ -1322,6 +1652,14 @@ def make_sibling(rs, d: Path, i: int, kind: str, good: bytes):
     elif kind != "nodesc":
         raise common.Infra(f"unknown sibling kind {kind}")
     return entry, {}
+
+
+# B is a project like any other: it may itself be documented for others (`externalize`), show private entities,
+# sort differently ... - none of which is a reason for a link into A to change
+B_OPTION_SETS = [
+    {}, {"externalize": "true"}, {"display": ["public", "private"]}, {"externalize": "true", "display": ["public", "protected", "private"]},
+    {}, {"externalize": "true", "sort": "type-alpha"}, {"proc_internals": "true"}, {"externalize": "true", "incl_src": "false"},
+]
 
 
 def run_b(d: Path, B_files, ext_value, extra=None):
@@ -1443,11 +1781,16 @@ def pair_case(rep, drv, rng, d: Path, k: int, tier: str, stats, docs_out, counte
     # B's graphs (uses / calls / inheritance / component types): their nodes are links as well
     graphs = k % 8 != 7
     stats[f"pair:graphs:{'on' if graphs else 'off'}"] = stats.get(f"pair:graphs:{'on' if graphs else 'off'}", 0) + 1
+    b_opts = dict(B_OPTION_SETS[(k + k // 8) % len(B_OPTION_SETS)])
+    stats["pair:B-externalize:" + b_opts.get("externalize", "false")] = stats.get("pair:B-externalize:" + b_opts.get("externalize", "false"), 0) + 1
+    for m_ in B["modules"]:
+        if m_.get("prelude"):
+            stats["pair:B-prelude:" + m_["default"]] = stats.get("pair:B-prelude:" + m_["default"], 0) + 1
     with patched_fetch(adoc, base=written, extra=served):
-        rb = run_b(d, b_files, ext_value, {"graph": "true"} if graphs else None)
+        rb = run_b(d, b_files, ext_value, dict(b_opts, **({"graph": "true"} if graphs else {})))
     counters["runs"] += 1
     bcase = dict(base_case, external=ext_value, other_external_projects=siblings, has_ford_links=has_links,
-                 description=None, b_graphs=graphs)
+                 description=None, b_graphs=graphs, b_options=b_opts)
     stats[f"pair:{mode}:{'links' if has_links else 'nolinks'}"] = stats.get(f"pair:{mode}:{'links' if has_links else 'nolinks'}", 0) + 1
     if mode == "remote":
         shape = ("host-only" if urlsplit(written).path in ("", "/") else "with-path") + (":slash" if written.endswith("/") else ":noslash")
@@ -1455,7 +1798,7 @@ def pair_case(rep, drv, rng, d: Path, k: int, tier: str, stats, docs_out, counte
     for cc in {c for m in A["modules"] for c in m.get("coincide", [])}:
         stats["pair:shared-identifier:" + cc] = stats.get("pair:shared-identifier:" + cc, 0) + 1
     if rb["rc"] != 0:
-        c = dict(bcase, why="B's run aborted", exc=rb["exc"], trace=(rb.get("trace") or "")[-600:])
+        c = dict(bcase, why="B's run aborted", exc=rb["exc"], trace=(rb.get("trace") or "")[-900:])
         rep.failing_input(c, classify_abort(c))
     else:
         fails, n_out = check_links(B, A, d / "B" / "doc", adoc, written if mode == "remote" else None, homes, stats,
@@ -1475,7 +1818,8 @@ def pair_case(rep, drv, rng, d: Path, k: int, tier: str, stats, docs_out, counte
             seen.add(keyf)
             rep.failing_input(dict(bcase, **f), fid)
     # --- damaged descriptions: B must still build (only the links may go)
-    for bad in rng.sample(BAD_KINDS, 2 if tier == "quick" else 4):
+    # (quick tier: two re-runs for every other pair, one for the rest - 48 re-runs over the nine ways of spoiling)
+    for bad in rng.sample(BAD_KINDS, (2 if k % 2 == 0 else 1) if tier == "quick" else 4):
         if mode == "local-abs":
             break
         good = spoil(rng, adoc, bad)
@@ -1669,6 +2013,7 @@ def run(tier: str, seed: int, replay: str | None = None) -> int:
     n_lookup = 1500 if tier == "quick" else 15000
     n_multi = 300 if tier == "quick" else 3000
     n_node = 1500 if tier == "quick" else 15000
+    n_assoc = 150 if tier == "quick" else 1500
     docs: list = []
     ev = 0
     import time
@@ -1681,6 +2026,7 @@ def run(tier: str, seed: int, replay: str | None = None) -> int:
         clock["t"] = now
 
     with common.scratch_dir() as d:
+        init_b_pool(d)
         # ---------------- export stream (correlate only, many option sets)
         bad_export = 0
         for k in range(n_export):
@@ -1729,16 +2075,18 @@ def run(tier: str, seed: int, replay: str | None = None) -> int:
         lap("multi")
         n_nd, bad_nd = node_stream(rep, drv, random.Random(seed * 6007 + 1604), n_node, stats)
         lap("node")
+        n_as, bad_as = assoc_stream(rep, drv, random.Random(seed * 4001 + 1603), d, docs, n_assoc, stats)
+        lap("assoc")
     drv.close()
     rep.coverage.update(
-        evaluations=ev + n_imp + n_lk + n_mu + n_nd + counters["runs"],
+        evaluations=ev + n_imp + n_lk + n_mu + n_nd + n_as + counters["runs"],
         distinct_nontrivial=len(counters["nontrivial"]),
         rule="pairs: distinct (A sources, B sources, mode) whose B output contains at least one link that leaves B "
              "and was checked against A's output; export/import/lookup stream sizes are listed separately",
         samples=counters["samples"],
-        traces_validated_against_impl=ev + counters["export_cmp"] + n_imp + n_lk + n_mu + n_nd,
+        traces_validated_against_impl=ev + counters["export_cmp"] + n_imp + n_lk + n_mu + n_nd + n_as,
         export_cases=ev + counters["export_cmp"], import_cases=n_imp, lookup_cases=n_lk, multi_project_cases=n_mu,
-        graph_node_cases=n_nd, stream_seconds=secs,
+        graph_node_cases=n_nd, use_association_cases=n_as, stream_seconds=secs,
         end_to_end_runs=counters["runs"], pairs_with_links_checked=counters["pairs_checked"],
         correspondence_disagreements=len(rep.tie_breaks),
         input_distribution=dict(sorted(stats.items())),
